@@ -69,7 +69,7 @@ def gen_cov(rng, big=True, branch_only=True):
     funcs = []
     for n in sorted(names, key=lambda s: s.encode()):
         st = rng.choice(lines) if lines and rng.random() < 0.6 else rng.randrange(1, hi + 5)
-        if funcs and rng.random() < 0.1:
+        if funcs and rng.random() < 0.2:
             st = funcs[-1][1]                               # two functions starting on one line
         funcs.append([hx(n), st, rng.random() < 0.5])
     return {"lines": lc, "branches": branches, "funcs": funcs}
@@ -131,6 +131,9 @@ def fixed_cases():
           [h("/w/src/sub/deep/er/q.c"), h("src/sub/deep/er/q.c"), one, 4], [h("/w/lib/l.c"), h("lib/l.c"), zero, 8]], p=4, br=False)
     case([[h("/w/src/t.c"), h("src/t.c"), {"lines": [[i, 1 if i % 3 else 0] for i in range(1, 8)], "branches": [], "funcs": []}, 7]], p=1)   # 4/7: rounding
     case([[h("/w/src/t.c"), h("src/t.c"), {"lines": [[i, 1 if i <= 29 else 0] for i in range(1, 201)], "branches": [], "funcs": []}, 200]], p=1)  # 14.5 %: half-way
+    twins = {"lines": [[1, 1], [2, 3], [3, 0], [4, 2], [6, 0], [7, 1]], "branches": [],
+             "funcs": [[h("_ZN5ShapeC1Ev"), 2, True], [h("_ZN5ShapeC2Ev"), 2, False], [h("area"), 6, True], [h("late"), 9, False]]}
+    case([[h("/w/src/shape.cpp"), h("src/shape.cpp"), twins, 8]])                    # two functions starting on one line, one past the last line
     return cs
 
 
@@ -358,6 +361,16 @@ def o_ade(F, data, ts):
                 F.add("C03", "ade", "a method's lines do not precede its start line", "%s %s" % (t["rel"], m["name"]))
             if len(set(m["covered"])) != len(m["covered"]) or len(set(m["uncovered"])) != len(m["uncovered"]):
                 F.add("C03", "ade", "no duplicated line", "%s %s" % (t["rel"], m["name"]))
+            if st is not None:
+                # the format's convention: a function extends from its start line to the next greater function start (or past the last line);
+                # its record lists exactly the file's instrumented lines in that range - none of them handed to "no function"
+                later = [s2[0] for s2 in t["funcs"].values() if s2[0] > st[0]]
+                hi_ = min(later) if later else (max(t["lines"]) + 1 if t["lines"] else 1)
+                wc = [l for l in cov_ if st[0] <= l < hi_]
+                wu = [l for l in unc if st[0] <= l < hi_]
+                if sorted(m["covered"]) != wc or sorted(m["uncovered"]) != wu:
+                    F.add("C03", "ade", "a method record lists the file's lines from its start line up to the next function start",
+                          "%s %s: expected %s / %s got %s / %s" % (t["rel"], m["name"], wc, wu, m["covered"], m["uncovered"]))
         if seen_c != set(cov_) or seen_u != set(unc):
             F.add("C03", "ade", "method and orphan lines cover exactly the file's lines", "%s: %s/%s vs %s/%s" % (t["rel"], sorted(seen_c), sorted(seen_u), cov_, unc))
         orphan_in_methods = (set(f["method"]["covered"]) | set(f["method"]["uncovered"])) & {l for r in mrecs for l in r["method"]["covered"] + r["method"]["uncovered"]}
